@@ -277,8 +277,8 @@ func (vc *VC) assume(st *State, f *Term) {
 	}
 	f = Implies(st.pc, f)
 	if fb := freeBound(f); len(fb) > 0 {
-		// a side fact (value range of a load) produced while evaluating under a quantifier: not needed, dropped
-		return
+		// produced while evaluating under a quantifier: it holds for every value of the bound variables
+		f = Forall(fb, f)
 	}
 	vc.assumes = append(vc.assumes, f)
 }
@@ -288,7 +288,7 @@ func (vc *VC) addGlobalFact(f *Term) {
 		return
 	}
 	if fb := freeBound(f); len(fb) > 0 {
-		return
+		f = Forall(fb, f)
 	}
 	vc.gfacts = append(vc.gfacts, f)
 }
@@ -385,6 +385,10 @@ func (vc *VC) noteWrite(st *State, kind PtrKind, key string, base, idx *Term) {
 }
 
 func (vc *VC) loadFacts(st *State, v *Term, t types.Type) {
+	if len(freeBound(v)) > 0 {
+		// range facts of values read under a quantifier are not needed
+		return
+	}
 	if v.Sort.Kind == SInt {
 		switch under(t).(type) {
 		case *types.Pointer, *types.Map, *types.Chan:
